@@ -704,7 +704,15 @@ func (e *engine) Execute(raw json.RawMessage) (vd harness.Verdict) {
 		vd.V = viol("task-died", "a routine died with %v", t.PanicVal)
 		return
 	}
-	if m, races := sched.UnknownRaces(s.MapRaces, nil); m != "" {
+	// only the dispatch tables are C10's subject; races on other shared
+	// tables belong to C17
+	var auxRaces []string
+	for _, r := range s.MapRaces {
+		if strings.HasPrefix(sched.RaceMap(r), "Aux.") {
+			auxRaces = append(auxRaces, r)
+		}
+	}
+	if m, races := sched.UnknownRaces(auxRaces, nil); m != "" {
 		pin()
 		vd.V = viol("map-race:"+m, "two routines access the Go map %s with nothing ordering them (kind, site of the open write window, site of the other access): %v", m, races)
 		return
